@@ -107,6 +107,11 @@ pub struct SimState {
   pub trace_log: Option<Vec<String>>,
   pub harness_error: Option<String>,
   pub first_inscription_height: Option<u32>,
+  /// a second caller of `Index::update` (see `UpdateSpec::competing_update`)
+  pub competitor: Option<Arc<dyn Fn() + Send + Sync>>,
+  competitor_nth: Option<u32>,
+  post_commit_writes: u32,
+  last_point: &'static str,
   /// every mutation applied to the simulated node, in order
   pub world_log: Vec<NodeEvent>,
   /// the explorer router handed over by `Server::run`
@@ -203,6 +208,10 @@ impl Sim {
         trace_log: None,
         harness_error: None,
         first_inscription_height: config.first_inscription_height,
+        competitor: None,
+        competitor_nth: None,
+        post_commit_writes: 0,
+        last_point: "",
         world_log: Vec::new(),
         router: None,
         sched_rng: Rng::new(0),
@@ -265,6 +274,9 @@ impl Sim {
     s.batch_sizes.clear();
     s.rpc_faults = spec.rpc_faults.clone();
     s.node_events = spec.node_events.clone();
+    s.competitor_nth = spec.competing_update;
+    s.post_commit_writes = 0;
+    s.last_point = "";
     s.crash_point = match &spec.disk_fault {
       Some(DiskFault::CrashAtPoint { point, nth, .. }) => Some((point.clone(), *nth)),
       _ => None,
@@ -550,6 +562,35 @@ impl ord::verif::Hooks for SimHooks {
 
     if s.outcome.point_log.len() < 4096 {
       s.outcome.point_log.push((name.to_string(), arg));
+    }
+    // the write transaction that follows a mid-batch commit: ord re-reads the
+    // block count there because "another update has run between committing
+    // and beginning the new write transaction"
+    let after_commit = name == "begin_write" && s.last_point == "commit.done";
+    s.last_point = name;
+    if after_commit {
+      let n = s.post_commit_writes;
+      s.post_commit_writes += 1;
+      if s.competitor_nth == Some(n)
+        && let Some(run) = s.competitor.take()
+      {
+        // the prefetch thread of this updater stops where it is; what it has
+        // queued stays queued
+        for f in &mut s.f_threads {
+          f.stale = true;
+        }
+        sim.cv.notify_all();
+        s = sim.wait_until(s, "prefetch thread to stop before the competing update", |s| {
+          s.f_threads.iter().all(|f| f.state == FState::Exited)
+        });
+        s.fired("competing_update");
+        s.note("competing update begins");
+        drop(s);
+        run();
+        s = sim.lock();
+        s.last_point = "";
+        s.note("competing update ends");
+      }
     }
     match name {
       "commit.after_first" => {
